@@ -121,6 +121,14 @@ def run_tlc(ctx, module, cfg, workers=4, simulate=None, expect_violation=None, t
     expect_violation: name of an invariant that MUST be reported violated (negative control)."""
     out = ctx.path(capture)
     meta = ctx.path("tlc-" + cfg.replace(".cfg", ""))
+    # the run's seed is substituted for the Seed constant of generator configs
+    cfg_txt = open(os.path.join(SPEC, cfg)).read()
+    if re.search(r"^\s*Seed = \d+", cfg_txt, re.M):
+        cfg_txt = re.sub(r"^(\s*)Seed = \d+", r"\g<1>Seed = %d" % (ctx.seed % 60000), cfg_txt, flags=re.M)
+        cfg_path = ctx.path(cfg)
+        open(cfg_path, "w").write(cfg_txt)
+    else:
+        cfg_path = cfg
     cmd = ["java", "-XX:+UseParallelGC", "-Xmx8g"]
     if java_opts:
         cmd += java_opts
@@ -128,7 +136,7 @@ def run_tlc(ctx, module, cfg, workers=4, simulate=None, expect_violation=None, t
         cmd += ["-Dtlc2.tool.queue.IStateQueue=StateDeque"]
     cmd += ["-cp", JAR + ":/opt/veriftools/tla/CommunityModules-deps.jar", "tlc2.TLC",
             "-workers", str(workers), "-metadir", meta, "-cleanup", "-noGenerateSpecTE",
-            "-config", cfg]
+            "-config", cfg_path]
     if simulate:
         cmd += ["-simulate", simulate, "-seed", str(ctx.seed)]
     cmd += [module + ".tla"]
@@ -257,3 +265,39 @@ def count_replay(path):
             if l.startswith('<<"REPLAY", '):
                 n += 1
     return n
+
+
+def run_trace(ctx, module, trace_path, cfg=None, timeout=900, xss="1g"):
+    """Trace validation (leg B): TLC checks that the ndjson log recorded from the real code is a
+    behaviour of the trace spec.  Returns (accepted, rejected_record_text, states)."""
+    cfg = cfg or module + ".cfg"
+    run = None
+    out = ctx.path("trace-" + module + ".txt")
+    meta = ctx.path("tlc-trace-" + module)
+    cmd = ["java", "-XX:+UseParallelGC", "-Xmx6g", "-Xss" + xss, "-Dtlc2.tool.queue.IStateQueue=StateDeque",
+           "-cp", JAR + ":/opt/veriftools/tla/CommunityModules-deps.jar", "tlc2.TLC", "-workers", "1",
+           "-metadir", meta, "-cleanup", "-noGenerateSpecTE", "-config", cfg, module + ".tla"]
+    env = dict(os.environ)
+    env["TRACE"] = trace_path
+    t0 = time.time()
+    with open(out, "w") as fo:
+        try:
+            p = subprocess.run(cmd, cwd=SPEC, stdout=fo, stderr=subprocess.STDOUT, timeout=timeout, env=env)
+        except subprocess.TimeoutExpired:
+            raise ToolError("TLC trace validation timed out on %s" % module)
+    shutil.rmtree(meta, ignore_errors=True)
+    txt = tail(out, 40000)
+    m = STATS_RE.findall(txt)
+    gen = distinct = 0
+    if m:
+        gen, distinct = [int(x.replace(",", "")) for x in m[-1]]
+    rej = re.findall(r'<<"REJECTED", (.*)>>\s+FALSE', txt)
+    accepted = ("Postcondition" not in txt) and ("Error:" not in txt) and distinct > 0
+    run = {"module": module, "cfg": cfg, "generated": gen, "distinct": distinct, "trace": os.path.basename(trace_path),
+           "accepted": accepted, "wall_s": round(time.time() - t0, 1)}
+    ctx.tlc_runs.append(run)
+    if not accepted and not rej:
+        raise ToolError("TLC trace validation failed on %s: %s" % (module, err_excerpt(txt)))
+    ctx.states += distinct
+    ctx.transitions += gen
+    return accepted, (rej[0][:1500] if rej else None), distinct
